@@ -63,6 +63,17 @@ pub(crate) fn verify_membership<TC: Configuration>(
         curr_label = sibling_proof.label;
     }
 
+    // The path must end at the root node. The labels along the path are only bound to the
+    // root hash as *children* of the next step, so without this check the top-most label is
+    // unauthenticated; in particular a proof with no sibling proofs at all would verify for any
+    // label as long as its value is the root node's value.
+    if curr_label != NodeLabel::root() {
+        return Err(VerificationError::MembershipProof(format!(
+            "Membership proof for label {:?} does not end at the root node",
+            proof.label
+        )));
+    }
+
     if TC::compute_root_hash_from_val(&curr_val) == root_hash {
         Ok(())
     } else {
